@@ -371,6 +371,12 @@ def obligations(tier, seed):
             obs.append(Ob(name=nm, source=src, pct=500, timeout=650,
                           meta={"desc": f"{t}: {len(keys)} keyword slot(s) of kind {name}; symbolic value; full line list vs rendering rule",
                                 "bounds": {"keys": len(keys), "variant": suffix}, "functions": ["mappyfile.pprint.PrettyPrinter._format"]}))
+    # "the text produced by dumps" includes every formatter option: with align_values the keyword and its value must still be two
+    # tokens (the C16 layout obligations with alignment on; their cover document has SYMBOL / SYMBOLSET-like short objects)
+    from checks import C16
+    for o in C16.layout_obs("C03-ALIGN", tier):
+        if ".align1." in o.name and ("/indent1." in o.name or "/indent4." in o.name or tier != "quick"):
+            obs.append(o)
     # the same keyword in objects of different types (GROUP, GEOMTRANSFORM, POSITION) inside one document, both visiting orders
     cs = chars("c", 2) + chars("n", 2)
     pre = conj([f"okc({n})" for n, _ in chars("c", 2)] + [f"okname({n})" for n, _ in chars("n", 2)] + ["(n0 >= 97) & (n0 <= 122)", "(c0 != 40) & (c0 != 47) & (c0 != 91) & (c0 != 123) & (c0 > 32)"])
